@@ -516,6 +516,12 @@ def many_keys_lock_cleanup(run):
                     assert store.getlock(nm).get()
                 for nm in failed:
                     store.getlock(nm).fail()
+                # residue of a process killed inside a pack rewrite, and a lock whose name is no task identifier: locks like any other
+                odd = [b'pack-save', b'not-a-task-hash']
+                if mode == 'locksOnly':
+                    for nm in odd:
+                        assert store.getlock(nm).get()
+                    held = held + odd
                 saved_key = globals()['keyname']
                 try:
                     real_cleanup(cfg, mode, [])
@@ -528,6 +534,12 @@ def many_keys_lock_cleanup(run):
                 run.case(('many-keys', kind, mode), nontrivial=True)
                 run.count('many_keys_cleanups')
                 rp = {'kind': 'many-keys-cleanup', 'backend': kind, 'mode': mode}
+                if kind == 'file' and mode == 'locksOnly':
+                    ldir = os.path.join(cfg.dir, 'locks')
+                    residue = sorted(os.listdir(ldir)) if os.path.isdir(ldir) else []
+                    if residue:
+                        run.fail('cleanup-locks:locksOnly:residue', 'cleanup --locks-only on a file store leaves %s in the locks directory (locks held by a process killed inside a pack rewrite / '
+                                 'with names that are no task identifiers must go too: a later pack rewrite waits for pack-save forever)' % residue, rp)
                 if sorted(left) != sorted(exp):
                     run.fail('cleanup-locks:%s:many' % mode, 'cleanup mode %s on a %s store with 30 results, 11 held and 9 failed locks: %d locks remain (expected %d: %s)'
                              % (mode, kind, len(left), len(exp), 'none' if mode == 'locksOnly' else 'the held ones'), rp)
@@ -653,6 +665,30 @@ def stale_cleanup_family(run, n=4):
             run.count('stale_cleanup_cases')
             if lost:
                 run.fail('cleanup-loses-packed', 'cleanup (store opened before a concurrent `jug pack` finished) deleted needed results %s' % lost, {'kind': 'stale-cleanup', 'backend': kind})
+            core.rm_rf(d)
+            # the other way round: the cleanup process has read a pack that holds every result; before it gets to work another process invalidates one
+            # result and a worker recomputes it (a loose file now, no longer in the pack file); nothing the jugfile defines may be removed
+            d = os.path.join(scratch, 'sd%d' % i)
+            os.makedirs(d)
+            cfg = Cfg(kind, d)
+            w = cfg.open()
+            for k in range(NKEYS):
+                w.dump(k * 3, keyname(k))
+            w.update_pack()
+            a = cfg.open()                  # the cleanup process: store opened, pack (all keys) read
+            b = cfg.open()
+            b.remove(keyname(1))            # meanwhile: jug invalidate ...
+            cfg.open().dump('recomputed', keyname(1))   # ... and a worker stores the new result
+            a.cleanup([TaskStub(keyname(k)) for k in range(NKEYS)], keeplocks=mode_kl)
+            fresh = cfg.open()
+            lost = [k for k in range(NKEYS) if not fresh.can_load(keyname(k))]
+            run.case(('stale-cleanup-recomputed', i, run.seed), nontrivial=True)
+            run.count('stale_cleanup_cases')
+            if lost:
+                run.fail('cleanup-loses-recomputed', 'cleanup by a process that opened the %s store before another process invalidated and recomputed a packed result deleted the needed results %s '
+                         '(every key is defined by the jugfile)' % (kind, lost), {'kind': 'stale-cleanup-recomputed', 'backend': kind, 'keep_locks': mode_kl})
+            elif fresh.load(keyname(1)) != 'recomputed':
+                run.fail('cleanup-resurrects-old', 'after that cleanup the recomputed result loads as %r' % (fresh.load(keyname(1)),), {'kind': 'stale-cleanup-recomputed', 'backend': kind})
             core.rm_rf(d)
     finally:
         core.rm_rf(scratch)
